@@ -90,13 +90,14 @@ def run_mixed(case, seed_override=None):
     if n is not None:
         kw["n_sub"] = n
     out = {}
+    dep = dependency_of(case.get("dep"), len(vars_)) if case["method"] != "slicing" else None
     with Capture() as cap:
         try:
             if case["method"] == "slicing":
                 r = mixed_up.slicing(vars_, f, s, case["k"], **kw)
                 lv = None
             else:
-                r, lv = mixed_up.interval_monte_carlo(vars_, f, s, case["n_sam"], dependency=dependency_of(case["dep"], len(vars_)),
+                r, lv = mixed_up.interval_monte_carlo(vars_, f, s, case["n_sam"], dependency=dep,
                                                       random_state=case["seed"] if seed_override is None else seed_override,
                                                       side_effects=True, **kw)
             out["res"] = ("ok", np.array(r.left, dtype=float), np.array(r.right, dtype=float))
@@ -169,6 +170,9 @@ def gen_cases(ctx):
     one = ("sub", ("mul", ("v", 0), ("v", 0)), ("v", 0))
     add("witness", [("P", "normal", (2.0, 3.0), (1.0, 1.0))], one, ("direct", None, None), "slicing", k=5)
     add("witness", [("P", "normal", (2.0, 3.0), (1.0, 1.0))], one, ("endpoints", None, None), "imc", n_sam=7, seed=3, dep=None)
+    # witness: a single draw of the gaussian copula (repaired: u_sample returned shape (d,))
+    add("witness", [("D", "gaussian", (-0.25, 1.0)), ("D", "uniform", (1.25, 3.25))], ("mul", ("v", 0), ("sub", ("v", 1), ("c", 1))),
+        ("endpoints", None, None), "imc", n_sam=1, seed=11, dep=("gaussian", 0.5))
     n_s = ctx.scale(60, 1500)
     n_i = ctx.scale(60, 1500)
     for which, count in (("slicing", n_s), ("imc", n_i)):
@@ -208,7 +212,7 @@ def gen_cases(ctx):
                     fam = "gaussian" if d == 3 else None
                 if fam == "gaussian" and d == 1:
                     fam = None
-                dep = None if fam is None else (fam, {"independence": None, "gaussian": rng.choice([-0.5, 0.3, 0.8]),
+                dep = None if fam is None else (fam, {"independence": None, "gaussian": rng.choice([-0.5, 0.3, 0.8] if d == 2 else [-0.3, 0.3, 0.8]),
                                                       "frank": rng.choice([2.0, 5.0]), "clayton": rng.choice([1.0, 3.0])}[fam])
                 add("imc-" + kp, inputs, e, cf, "imc", n_sam=n_sam, seed=rng.randint(0, 10 ** 6), dep=dep)
             made += 1
@@ -305,10 +309,11 @@ def run(ctx: core.Check, cases=None):
             t = rep.split()
             if t[0] == "ok":
                 flat = unql(t[2])
-                mf = sorted((flat[2 * i], flat[2 * i + 1]) for i in range(len(flat) // 2))
+                mf = [(flat[2 * i], flat[2 * i + 1]) for i in range(len(flat) // 2)]
                 if impl[0] == "ok" and o["focal"] is not None and all(fc[0] == "ok" for fc in o["focal"]):
-                    fi = sorted((F(fc[1]), F(fc[2])) for fc in o["focal"])
-                    same = len(fi) == len(mf) and all(abs(a - x) <= tol and abs(b - y) <= tol for (a, b), (x, y) in zip(fi, mf))
+                    fi = [(F(fc[1]), F(fc[2])) for fc in o["focal"]]
+                    eq = lambda u, w: len(u) == len(w) and all(abs(a - x) <= tol and abs(b - y) <= tol for (a, b), (x, y) in zip(u, w))
+                    same = eq(fi, mf) or eq(sorted(fi), sorted(mf))      # stacking does not depend on the order
                 else:
                     same = False
             elif t[0] == "err":
